@@ -288,7 +288,7 @@ func buildEntity(
 			st.schedule(tick)
 		}
 		b.obj = c
-		b.coq = hx.App("EComp", hx.Str(specHashOf(e)), hx.N(fp(mustJSON(c.State))), hx.B(has), hx.N(next))
+		b.coq = hx.App("EComp", hx.Str(specHashOf(e)), hx.N(fp(mustJSON(c.State))), hx.B(has), hx.N(next), "false", "0")
 	case "evcomp":
 		c := modeling.NewEventDrivenBuilder[cSpec, cState, modeling.None]().
 			WithEngine(engine).WithSpec(cSpec{A: e.SpecA, B: e.SpecB}).
